@@ -166,7 +166,8 @@ def make_bank(rng, quick):
                                   'word-percent', 'word-unispace',
                                   'cat-decorated', 'cat-digit-last',
                                   'word-bracket', 'word-python-literal',
-                                  'word-equals-tag', 'pos-keyword'],
+                                  'word-equals-tag', 'pos-keyword',
+                                  'word-empty'],
                   root_labels=['TOP', 'ROOT', 'S'])
         if rng.random() < 0.4:
             gen.uproot(rng, bank[-1], 0.3)
